@@ -16,3 +16,7 @@ open GlueVerif.C19
 #print axioms autotyped_flip_witness
 #print axioms ascii_empty_text_witness
 #print axioms hdf5_zero_fill_ambiguous
+#print axioms layout_irrelevant
+#print axioms relayout_values
+#print axioms export_import_any_layout
+#print axioms export_import_chain
